@@ -146,3 +146,8 @@ def run(ctx, rep):
             rep.obligations.append(o)
             n += 1
     rep.floor("id-verified", "hashed fields of the stored Message wired to the rumor", n, 5)
+    # ... and the storage layer keeps them as given: the id column is the hash of exactly these columns
+    rep.clause("C04.2c the SQLite save stores the message's fields as given (no content-changing operation between the record and the bound values)")
+    import sqlmod
+    import sqlrules
+    sqlrules.clause_stored_verbatim(prog, rep, sqlmod.collect(prog), "id-verified", {"messages"})
